@@ -79,7 +79,7 @@ def exec_raster(c):
     snap = lib.snapshot(t)
     stack = tf(t)
     saved_ok = 1
-    if lib.vid(c) % 4 == 0:
+    if lib.vid(c) % 4 == 0 or c.get("save"):
         tmp = tempfile.mkdtemp(prefix="verif_img_")
         try:
             p = os.path.join(tmp, "t.tif")
@@ -127,12 +127,29 @@ def raster_cases(ctx, count):
         r0 = rng.randint(1, 2)
         rad = [r0 if equal else rng.randint(1, 3) for _ in range(n)]
         res = RES[k % len(RES)]
+        save = 0
+        if k % 9 == 7:
+            # one end ball strictly inside the other (the union is then the larger ball)
+            n = rng.randint(2, 3)
+            P = [-1] + list(range(n - 1))
+            ax = rng.randrange(3)
+            pos = [[0, 0, 0]]
+            for i in range(1, n):
+                q = list(pos[-1]); q[ax] += rng.choice([-1, 1]); pos.append(q)
+            rad = [rng.choice([3, 4]) if i % 2 == k % 2 else 1 for i in range(n)]
+        elif k % 9 == 8:
+            # a flat tree at a coarse z resolution: the stack has a single frame; it is saved and read back
+            zc = rng.randint(-1, 1)
+            pos = [[p[0], p[1], zc] for p in pos]
+            rad = [1] * n
+            res = [(1, 1), (1, 1), (7, 2)] if k % 2 else [(1, 2), (1, 1), (5, 2)]
+            save = 1
         den = 1
         for a, b in res:
             den = den * b // np.gcd(den, b)
         S = int(2 * den)
         out.append({"kind": "raster", "P": P, "pos": pos, "rad": rad, "res": [list(x) for x in res], "S": S,
-                    "resS": [int(Fraction(a, b) * S) for a, b in res]})
+                    "resS": [int(Fraction(a, b) * S) for a, b in res], "save": save})
     return out
 
 
@@ -143,7 +160,7 @@ def run(ctx):
     other = [dict(c, fmt=("npy" if k % 2 else "nrrd"), fdarg="same") for k, c in enumerate(cases[:: (9 if q else 3)])]
     p = ctx.write_cases("io-npy-nrrd", other)
     ctx.run_cases("io-npy-nrrd", other, p, execute, "Judge_ImageStack", keyfn, nontrivial)
-    rc = raster_cases(ctx, 40 if q else 500)
+    rc = raster_cases(ctx, 45 if q else 540)
     p = ctx.write_cases("raster", rc)
     ctx.run_cases("raster", rc, p, execute, "Judge_ImageStack", keyfn, nontrivial, per_case_timeout=120)
     ctx.assumptions += ["voxel values are index codes below 255; float arrays hold (code + 1/2) / 255 so that the documented floor(v * MAX) is decided away from rounding; "
